@@ -23,7 +23,7 @@ def probe(ctx, f, shadow, where, case):
         if not f.check_alt(f.hashes(k)):
             ctx.fail(f"added key reported absent by check_alt(hashes(key)) {where}", key=k)
         # "hash once, use on several filters": a hash list computed for a DEEPER filter is a prefix-compatible argument
-        if not f.check_alt(f.hashes(k, f.number_hashes + 1 + len(shadow) % 5)):
+        if not getattr(f.hash_function, "depth_dependent", False) and not f.check_alt(f.hashes(k, f.number_hashes + 1 + len(shadow) % 5)):
             ctx.fail(f"added key reported absent by check_alt() given a longer (deeper) hash list {where}", key=k)
     ctx.count("full_probes")
 
@@ -41,6 +41,8 @@ def wl_plain(ctx, rng, case):
     est, rate, m, k = gen.bloom_geometry(rng, small=rng.random() < 0.8)
     keys = gen.universe(rng, rng.randint(2, 24))
     hname, hf = gen.pick_hash(rng, keys)
+    if rng.random() < 0.07:
+        hname, hf = "hand_depth_dependent", gen.DepthDependent()  # values depend on the requested depth: fine for a filter used on its own
     on_disk = rng.random() < 0.4
     sc = bl.Scratch(ctx, case)
     cwd0 = os.getcwd()
@@ -89,7 +91,7 @@ def wl_plain(ctx, rng, case):
                     f.add(key)
                 else:
                     case.op("add_alt", key)
-                    arg, cp = bl.alt_arg(ctx, f.hashes(key) if rng.random() < 0.5 else f.hashes(key, f.number_hashes + rng.randint(1, 6)))
+                    arg, cp = bl.alt_arg(ctx, f.hashes(key) if rng.random() < 0.5 or getattr(hf, "depth_dependent", False) else f.hashes(key, f.number_hashes + rng.randint(1, 6)))
                     f.add_alt(arg)
                     bl.arg_unchanged(ctx, arg, cp, "add_alt")
                 if key not in shadow:
